@@ -16,6 +16,16 @@ class InternalError(Exception):
     """The checker itself is broken (exit 2); never a property violation."""
 
 
+class LibraryRaised(InternalError):
+    """An exception escaped from the staged zope.interface through a check's
+    oracle code: the library does something the unchanged tree never does on
+    the explored space."""
+
+    def __init__(self, mod, fn, arg, tb, typ, env):
+        InternalError.__init__(self, 'library raised %s in %s.%s' % (typ, mod, fn))
+        self.mod, self.fn, self.arg, self.tb, self.typ, self.env = mod, fn, arg, tb, typ, env
+
+
 class Crash:
     """Result placeholder: the worker died while evaluating this argument."""
 
@@ -60,6 +70,8 @@ class _Proc:
                     pass
             self.start()
             return Crash(rc, tail)
+        if r[0] == 'err' and len(r) > 2 and r[2]:
+            raise LibraryRaised(mod, fn, arg, r[1], r[3], self.env)
         if r[0] == 'err':
             raise InternalError('worker raised in %s.%s:\n%s' % (mod, fn, r[1]))
         return r[1]
